@@ -12,7 +12,7 @@ E1 = "E1 universe enumerator"
 CHECKS = {
  "C01": dict(engine=E1, cat="model_checking", ref="DESIGN.md §3 C01",
    technique="exhaustive enumeration of bounded universe families on the real solver + brute-force rule oracle",
-   text="Every (universe, problem) of the finite families F1/F1'/F2/F3/F4/F5/F9/F10 (F10 = a package first revealed after a decision for another transitive package, under per-package hint patterns; <=4 packages, <=3 versions, <=3 simultaneous decorations) is solved by the real Solver under every listed configuration (hints as-is/All/None, sync and controlled-async FIFO/LIFO, activity parameters, debug and release builds) and each returned solution is checked against an independent statement of the package rules. Exhaustive inside the stated families; says nothing about larger universes.",
+   text="Every (universe, problem) of the finite families F1/F1'/F2/F3/F4/F5/F9/F10/F11/F12 (F10 = a package first revealed after a decision for another transitive package, under per-package hint patterns; F11 = sequences of soft requirements sharing helper packages; F12 = a soft requirement revealing further candidates of an installed package; <=4 packages, <=3 versions, <=3 simultaneous decorations) is solved by the real Solver under every listed configuration (hints as-is/All/None, sync and controlled-async FIFO/LIFO, activity parameters, debug and release builds) and each returned solution is checked against an independent statement of the package rules. Exhaustive inside the stated families; says nothing about larger universes.",
    note="Trusted: the harness's Universe->DependencyProvider adapter and the brute-force oracle (self-checked against hand-solved universes on every run)."),
  "C02": dict(engine=E1, cat="model_checking", ref="DESIGN.md §3 C02",
    technique="exhaustive universe enumeration; verdict vs brute-force satisfiability; learnt clauses certified on all assignments",
@@ -24,7 +24,7 @@ CHECKS = {
    note="Graphs with more than 20 solvable nodes are not proof-checked (counted; none occur in the families)."),
  "C04": dict(engine=E1, cat="model_checking", ref="DESIGN.md §3 C04",
    technique="exhaustive universe enumeration under catch_unwind + wall-clock monitor, both build profiles, capped render sinks",
-   text="Every case of the families (incl. F5 soft skeletons and cyclic F1) is solved and, when Unsolvable, rendered (graph, graphviz x2, user-friendly message) in builds with and without debug assertions; any panic, hang (30 s monitor), output beyond 1 MiB or beyond the line bound derived from the graph is a violation.",
+   text="Every case of the families (incl. F5/F11 soft families and cyclic F1) is solved and, when Unsolvable, rendered (graph, graphviz x2, user-friendly message; also with the provider's cancellation flag raised between the solve and the rendering) in builds with and without debug assertions; providers that use the SolverCache from sort_candidates are run under completion orders of the controlled executor; any panic, hang (monitor; re-run alone before it is reported), output beyond 1 MiB or beyond the line bound derived from the graph is a violation, and so is a case that brings the whole harness process down (isolated by re-running the workers' current cases alone in child processes).",
    note="Well-formed providers only. The message bound is the size of the cycle-cut tree unfolding of the conflict graph."),
  "C05": dict(engine=E1, cat="model_checking", ref="DESIGN.md §3 C05",
    technique="exhaustive universe enumeration; solution compared with its own support fixpoint",
@@ -40,7 +40,7 @@ CHECKS = {
    note=""),
  "C09": dict(engine=E1, cat="model_checking", ref="DESIGN.md §3 C09",
    technique="exhaustive universe enumeration; provider call log walked against causality rules",
-   text="The complete provider call log of every solve (hints forced to None) is walked in order: get_dependencies only for matching candidates of requirements already obtained (or soft solvables), get_candidates only for names already mentioned, nothing twice; on conflict-free cases the fetched sets must be exactly the solution / the mentioned names.",
+   text="The complete provider call log of every solve (no hints, in both representations: the None variant and an empty list) is walked in order: get_dependencies only for matching candidates of requirements already obtained (or soft solvables), get_candidates only for names already mentioned, nothing twice; on conflict-free cases the fetched sets must be exactly the solution / the mentioned names.",
    note="Sync runtime; successive solves are covered by C13."),
  "C10": dict(engine="E2 completion-order explorer", cat="model_checking", ref="DESIGN.md §3 C10",
    technique="stateless DFS over all completion orders of parked provider futures under a controlled single-threaded executor (deviation-bounded above a size cap)",
@@ -60,11 +60,11 @@ CHECKS = {
    note=""),
  "C14": dict(engine=E1, cat="model_checking", ref="DESIGN.md §3 C14",
    technique="exhaustive enumeration of soft-requirement universes (F5) + brute-force oracle",
-   text="F5 (13 skeletons + unreferenced package z with back-references, every subset of <= 2/3 soft/exclude/lock/unknown/hint/requirement decorations) and F1 x one soft solvable: hard verdict unchanged by soft requirements, returned set valid with the documented exemption, supported, inclusion of a compatible first soft solvable, impossible soft solvables absent.",
+   text="F5 (13 skeletons + unreferenced package z with back-references, every subset of <= 2/3 soft/exclude/lock/unknown/hint/requirement decorations), F1 x one soft solvable, F11 (sequences of two soft requirements sharing helper packages, also under hints on the shared packages only) and F12 (a soft requirement revealing further candidates of an installed package): hard verdict unchanged by soft requirements, returned set valid with the documented exemption, supported, inclusion of a compatible first soft solvable, impossible soft solvables absent.",
    note="Inclusion rule evaluated for the first soft solvable of the list only."),
  "C15": dict(engine=E1, cat="model_checking", ref="DESIGN.md §3 C15",
    technique="enumeration of candidate counts n<=N, all pairs, all discovery shapes; at-most-one encoding certified from the clause dump",
-   text="One package with n candidates for every n <= 17 (quick) / 130 (thorough); every discovery shape of the menu (all at once, every arrival permutation for n <= 5, identity/reverse/interleaved/rotations above, blocks, two-phase at the split points, discovery under decisions that are later reverted, candidates that are false when a lazily fetched requirer reveals them); every pair must be Unsolvable, every single candidate selectable; the dumped forbid clauses must be exactly an at-most-one.",
+   text="One package with n candidates for every n <= 17 (quick) / 130 (thorough); every discovery shape of the menu (all at once, every arrival permutation for n <= 5, identity/reverse/interleaved/rotations above, blocks, two-phase at the split points, discovery under decisions that are later reverted, candidates that are false when a lazily fetched requirer reveals them); every pair must be Unsolvable, every single candidate selectable, also when the same problem is solved a second time on the same solver; the dumped forbid clauses (of both solves) must be exactly an at-most-one.",
    note="Above n = 40 only pairs touching a power-of-two neighbourhood or the ends are enumerated (counted)."),
  "C16": dict(engine="E4 operation-sequence explorer", cat="model_checking", ref="DESIGN.md §3 C16",
    technique="universe enumeration x capture seeds x serde round trip x add_package_requirement histories, compared with brute force on the live universe",
@@ -72,7 +72,7 @@ CHECKS = {
    note="Problems with union root requirements are not expressible through from_provider's seeds."),
  "C18": dict(engine="E4 operation-sequence explorer", cat="model_checking", ref="DESIGN.md §3 C18",
    technique="BFS over Pool interning histories from pre-filled start states with canonical-state dedup vs reference maps",
-   text="Breadth-first search over intern_* histories (depth 4 quick / 6 thorough) from pools pre-filled with 0/126/127/128/255/256 items per arena; after every operation every id ever returned is re-resolved and must yield the same content at the same address; ids dense and stable. Because the canonical form is derived from the reference model, every sequence up to depth 4 (quick) / 5 (thorough) from prefill 0 and 127 is additionally enumerated without any state merging. Thorough adds a supplementary miri replay of a few histories (not deciding).",
+   text="Breadth-first search over intern_* histories (depth 4 quick / 6 thorough) from pools pre-filled with 0/126/127/128/255/256 items per arena (some with the alphabet's package names interned already); after every operation every id ever returned is re-resolved and must yield the same content at the same address; ids dense and stable. Because the canonical form is derived from the reference model, every sequence up to depth 4 (quick) / 5 (thorough) from prefill 0 and 127 is additionally enumerated without any state merging. Thorough adds a supplementary miri replay of a few histories (not deciding).",
    note="Address stability observed through safe code (re-resolution)."),
  "C19": dict(engine="E4 operation-sequence explorer", cat="model_checking", ref="DESIGN.md §3 C19",
    technique="BFS over Mapping insert/unset histories with canonical-state dedup vs BTreeMap, incl. serde round trip",
@@ -80,7 +80,7 @@ CHECKS = {
    note=""),
  "C20": dict(engine="E4 operation-sequence explorer", cat="model_checking", ref="DESIGN.md §3 C20",
    technique="all SolverCache call sequences of depth d per universe vs reference filter/sort/availability model; re-entrant sort in full solves",
-   text="For every universe of F3 (<= 1/2 decorations) and a slice of F4: every sequence (length 3 quick / 4 thorough) of get_or_cache_* / are_dependencies_available_for calls on a bare SolverCache compared with the reference (partition, rank order with favored rotation, same address and no provider call on repeats, availability rule); plus full solves whose sort_candidates calls back into the cache (sync and under completion orders of the controlled executor), hand-stepped in-flight scenarios on a bare cache (availability while a request is pending / after it was dropped, a second caller sharing the pending request, an abandoned request not blocking later ones), every universe again with all packages hinted, the sorted candidates of every union under every completion order of the provider's answers (controlled executor on a bare cache), and one-package universes with 5/21/33/64 candidates x favored position x 3 preference orders.",
+   text="For every universe of F3 (<= 1/2 decorations) and a slice of F4: every sequence (length 3 quick / 4 thorough) of get_or_cache_* / are_dependencies_available_for calls on a bare SolverCache compared with the reference (partition exactly as filter_candidates answers - also for a provider that answers in reverse listing order -, rank order with favored rotation, same address and no provider call on repeats, availability rule, hints as-is / All / empty list); plus full solves whose sort_candidates calls back into the cache (sync and under completion orders of the controlled executor), hand-stepped in-flight scenarios on a bare cache (availability while a request is pending / after it was dropped, a second caller sharing the pending request, an abandoned request not blocking later ones), every universe again with all packages hinted, the sorted candidates of every union under every completion order of the provider's answers (controlled executor on a bare cache), and one-package universes with 5/21/33/64 candidates x favored position x 3 preference orders.",
    note=""),
 }
 
